@@ -21,7 +21,10 @@ func ledgerWanted() bool { return os.Getenv("VERIF_LEDGER") == "1" }
 // withLedger routes the library's message ledger into the scenario's recorder.
 func withLedger(r *rec.Recorder) func() {
 	if !ledgerWanted() {
-		return func() {}
+		// no ledger lines wanted: an empty ledger still makes the library overwrite header and body of every
+		// message at its last Free, so that anybody holding on to a released buffer reads garbage
+		mangos.VerifSetMsgLedger(func(mangos.VerifMsgEvent) {})
+		return func() { mangos.VerifSetMsgLedger(nil) }
 	}
 	mangos.VerifSetMsgLedger(func(e mangos.VerifMsgEvent) {
 		r.Emit("m", "op", e.Op, "s", e.Serial, "ref", int(e.Ref), "len", e.Len, "cap", e.Cap, "hl", e.HLen)
